@@ -237,6 +237,9 @@ func (r *Run) Finish() int {
 		verdict = "inconclusive"
 	}
 	cov["verdict"] = verdict
+	if m := os.Getenv("VERIF_LOG"); m != "" {
+		cov["services_log_level"] = map[string]string{"off": "disabled", "trace": "trace (into a discard sink)"}[m]
+	}
 	if len(r.inconclusive) > 0 {
 		cov["inconclusive_reasons"] = r.inconclusive
 	}
